@@ -37,11 +37,21 @@ fn gen_expr(r: &mut Rng, depth: u32) -> E {
     }
     match r.below(10) {
         0 => E::Unary { right: Box::new(gen_expr(r, depth - 1)), operator: *r.pick(&UNOPS) },
-        1..=6 => E::Binary { left: Box::new(gen_expr(r, depth - 1)), right: Box::new(gen_expr(r, depth - 1)), operator: *r.pick(&BINOPS) },
+        1..=6 => { let l = gen_expr(r, depth - 1); let rr = if r.chance(1, 8) { if r.chance(1, 2) { l.clone() } else { loosen_expr(r, &l) } } else { gen_expr(r, depth - 1) };
+                   E::Binary { left: Box::new(l), right: Box::new(rr), operator: *r.pick(&BINOPS) } }
         7 => { let n = r.below(3); E::Array { expressions: (0..n).map(|_| gen_expr(r, depth - 1)).collect() } }
         8 => E::Call { name: "if_then".into(), params: vec![gen_expr(r, depth - 1), gen_expr(r, depth - 1), gen_expr(r, depth - 1)] },
         _ => gen_call(r, depth - 1),
     }
+}
+/// `[f(args), f(args'), f(args)]` with args' loosely equal to args; no variables
+pub fn gen_pair_line(r: &mut Rng, name: &str) -> String {
+    let args = crate::call::gen_args(r, name);
+    let args2: Vec<V> = args.iter().map(|a| if r.chance(3, 4) { loosen_val(r, a) } else { a.clone() }).collect();
+    let call = |a: &[V]| E::Call { name: name.to_string(), params: a.iter().map(value_expr).collect() };
+    let e = match r.below(3) { 0 => E::Array { expressions: vec![call(&args), call(&args2)] }, 1 => E::Array { expressions: vec![call(&args2), call(&args), call(&args2)] },
+        _ => E::Binary { left: Box::new(E::Call { name: "str".into(), params: vec![call(&args)] }), right: Box::new(E::Call { name: "str".into(), params: vec![call(&args2)] }), operator: O::Plus } };
+    format!("script {} 0", hex(&crate::lang::render_text(&e, r.below(4))))
 }
 pub fn gen_script_line(r: &mut Rng) -> String {
     let d = r.below(3) as u32; let e = gen_expr(r, d);
